@@ -70,10 +70,15 @@ void run_printf(Ctx &c, std::string in, unsigned variant) {
 		// A format in which every directive is positional (and none uses `*`) consumes exactly the arguments 1..max position: the
 		// argument area then has exactly that many slots, so that a fetch of an argument the format never names is an out-of-bounds read.
 		// Formats that mix numbered and unnumbered directives (undefined in POSIX) keep nine spare slots.
+		// the directives are scanned the way a printf implementation reads them: '%', then either "<digits>$" (numbered) or anything else (unnumbered)
 		size_t maxpos = 0, dollars = 0, directives = 0; bool star = in.find('*') != std::string::npos; bool zero_pos = false;
 		for(size_t i = 0; i < in.size(); i++) {
-			if(in[i] == '%') { if(i + 1 < in.size() && in[i + 1] == '%') { i++; continue; } directives++; }
-			if(in[i] == '$') { dollars++; size_t j = i, v = 0, mul = 1; while(j > 0 && in[j - 1] >= '0' && in[j - 1] <= '9' && mul <= 1000) { v += (size_t)(in[j - 1] - '0') * mul; mul *= 10; j--; } if(v <= 64) maxpos = std::max(maxpos, v); if(v == 0) zero_pos = true; }
+			if(in[i] != '%') continue;
+			if(i + 1 < in.size() && in[i + 1] == '%') { i++; continue; }
+			directives++;
+			size_t j = i + 1, v = 0; bool digits = false;
+			while(j < in.size() && in[j] >= '0' && in[j] <= '9' && v <= 1000) { v = v * 10 + (size_t)(in[j] - '0'); j++; digits = true; }
+			if(digits && j < in.size() && in[j] == '$') { dollars++; if(v == 0) zero_pos = true; if(v <= 64) maxpos = std::max(maxpos, v); else zero_pos = true; }
 		}
 		// ("%0$d" is not a numbered directive - positions start at 1 - and frigg reads it as an unnumbered one: such formats are mixed ones)
 		if(!star && !zero_pos && dollars >= directives && maxpos >= 1) { nslots = maxpos; c.tag("printf-all-positional-exact-args"); }
